@@ -10,8 +10,10 @@ network) this is the induction step for phase 2.
 
 ## Status of the protocol-level theorem (`agreement`)
 
-Proved here, for all inputs: the network lemma (`Proofs/C01Net.lean`, `inbox_author_eq`) and the
-phase 2 step (`views_agree_after_phase_2_step`).  Not yet formalised: the instantiation of the step's
+Proved here, for all inputs: the network lemma (`Proofs/C01Net.lean`, `inbox_author_eq`), the
+phase 2 step (`views_agree_after_phase_2_step`) and the phase 5 step (`resolve5_dq_iff`,
+`resolve5_order_independent`, `views_agree_after_phase_5_step` — its premises are exactly the facts the
+paper argument below derives for phases 3→5).  Not yet formalised: the instantiation of the step's
 hypotheses inside `run` (states after phase 1 are `initSt` + the filtered delivery) and the steps for
 the later phases.  Paper argument for the REPAIRED code (every item names the fix that makes it true):
 
@@ -237,5 +239,166 @@ theorem views_agree_after_phase_2_step (a b : St) (n : Nat)
   · rw [dqA]; simp [hpb, hpbok]
   · rw [iaB]; simp [hpa]
   · rw [dqB]; simp [hpa, hpaok]
+
+/-! ## phase 5: resolution of the share accusations -/
+
+/-- the public data the phase 5 verdicts are computed from -/
+structure Pub5 where
+  ev : Evidence
+  q : Nat
+  n : Nat
+  recvC : List (Nat × List (Nat × Nat))
+
+def pub5 (s : St) : Pub5 := ⟨evidence s, s.q, s.n, s.recvC⟩
+
+/-- member disqualified by the judge `self` for one accusation (repaired code: an unresolvable
+    accusation disqualifies its sender) -/
+def target5 (P : Pub5) (self : Nat) (a : Nat × Nat × Nat) : Nat :=
+  match verdict5 P.ev P.q self P.n ((lookup a.2.1 P.recvC).getD []) a.1 a.2.1 a.2.2 with
+  | .fatal => a.1
+  | .accuser => a.1
+  | _ => a.2.1
+
+theorem resolve5Step_spec (s : St) (a : Nat × Nat × Nat) (hok : s.status = .ok) (hfa : s.fixAbort = true) :
+    core (resolve5Step s a) = core (markDQ s (target5 (pub5 s) s.id a)) ∧
+    pub5 (resolve5Step s a) = pub5 s ∧ (resolve5Step s a).status = .ok ∧
+    (resolve5Step s a).fixAbort = true := by
+  have hmk : ∀ j, pub5 (discardShares (markDQ s j) j) = pub5 s ∧
+      core (discardShares (markDQ s j) j) = core (markDQ s j) ∧
+      (discardShares (markDQ s j) j).status = .ok ∧ (discardShares (markDQ s j) j).fixAbort = true := by
+    intro j
+    unfold discardShares markDQ
+    split <;> simp [pub5, core, evidence, hok, hfa]
+  unfold resolve5Step target5
+  simp only [hok, ne_eq, not_true_eq_false, if_false, hfa, if_true, pub5]
+  cases hv : verdict5 (evidence s) s.q s.id s.n ((lookup a.2.1 s.recvC).getD []) a.1 a.2.1 a.2.2 <;>
+    simp only [] <;>
+    exact ⟨(hmk _).2.1, (hmk _).1, (hmk _).2.2.1, (hmk _).2.2.2⟩
+
+theorem resolve5_fold (l : List (Nat × Nat × Nat)) (s : St) (hok : s.status = .ok) (hfa : s.fixAbort = true) :
+    core (l.foldl resolve5Step s) = core ((l.map (target5 (pub5 s) s.id)).foldl markDQ s) ∧
+    (l.foldl resolve5Step s).status = .ok := by
+  suffices h : ∀ (l : List (Nat × Nat × Nat)) (s s' : St), s.status = .ok → s.fixAbort = true →
+      core s = core s' →
+      core (l.foldl resolve5Step s) = core ((l.map (target5 (pub5 s) s.id)).foldl markDQ s') ∧
+      (l.foldl resolve5Step s).status = .ok from h l s s hok hfa rfl
+  intro l
+  induction l with
+  | nil => intro s s' h1 _ hc; exact ⟨hc, h1⟩
+  | cons a rest ih =>
+    intro s s' h1 h2 hc
+    obtain ⟨c1, c2, c3, c4⟩ := resolve5Step_spec s a h1 h2
+    simp only [List.foldl_cons, List.map_cons]
+    have hid : (resolve5Step s a).id = s.id := by
+      have := congrArg (·.1) c1
+      simpa [core, markDQ] using (show (resolve5Step s a).id = (markDQ s _).id from this).trans (by unfold markDQ; split <;> rfl)
+    have := ih (resolve5Step s a) (markDQ s' (target5 (pub5 s) s.id a)) c3 c4
+      (c1.trans (markDQ_core s s' hc _))
+    rw [c2, hid] at this
+    exact this
+
+/-- DQ set after the phase 5 resolution (repaired code): the old one plus the operating targets of
+    the verdicts — all computed on the state BEFORE the resolution, hence independent of the order
+    in which the accusations (messages, and Go map entries inside a message) are processed. -/
+theorem resolve5_dq_iff (l : List (Nat × Nat × Nat)) (s : St) (hok : s.status = .ok)
+    (hfa : s.fixAbort = true) (k : Nat) :
+    k ∈ (l.foldl resolve5Step s).dq ↔
+      k ∈ s.dq ∨ (k ∈ l.map (target5 (pub5 s) s.id) ∧ isOperating s k = true) := by
+  have h := (resolve5_fold l s hok hfa).1
+  simp only [core, Prod.mk.injEq] at h
+  rw [h.2.2.2, markDQ_fold_iff]
+
+theorem resolve5_order_independent (l l' : List (Nat × Nat × Nat)) (hp : ∀ a, a ∈ l ↔ a ∈ l') (s : St)
+    (hok : s.status = .ok) (hfa : s.fixAbort = true) (k : Nat) :
+    k ∈ (l.foldl resolve5Step s).dq ↔ k ∈ (l'.foldl resolve5Step s).dq := by
+  rw [resolve5_dq_iff l s hok hfa, resolve5_dq_iff l' s hok hfa]
+  simp only [List.mem_map, hp]
+
+/-- **Phase 5 agreement step (DQ sets).**  Two honest members `a`, `b` that
+    * hold the same public data (evidence log, commitments), the same IA set, and whose DQ lists
+      contain only group members that are not inactive,
+    * see the same third-party accusations (consistent broadcast + admission by the snapshot),
+    * each see the other's accusations, which are truthful (the public verdict confirms them) and
+      cover everything the other disqualified on its own,
+    * are themselves never convicted by the public verdict (honest members' shares verify),
+    end the resolution with the same DQ set. -/
+theorem views_agree_after_phase_5_step (a b : St) (accsA accsB : List (Nat × Nat × Nat))
+    (hoka : a.status = .ok) (hokb : b.status = .ok) (hfa : a.fixAbort = true) (hfb : b.fixAbort = true)
+    (hpub : pub5 a = pub5 b) (hia : ∀ k, k ∈ a.ia ↔ k ∈ b.ia)
+    (hdqa : ∀ k ∈ a.dq, 1 ≤ k ∧ k ≤ a.n ∧ k ∉ a.ia) (hdqb : ∀ k ∈ b.dq, 1 ≤ k ∧ k ≤ b.n ∧ k ∉ b.ia)
+    -- third-party accusations are common
+    (h3ab : ∀ x ∈ accsA, x.1 ≠ b.id → x ∈ accsB) (h3ba : ∀ x ∈ accsB, x.1 ≠ a.id → x ∈ accsA)
+    -- nobody holds its own accusations
+    (hselfA : ∀ x ∈ accsA, x.1 ≠ a.id) (hselfB : ∀ x ∈ accsB, x.1 ≠ b.id)
+    -- the other's accusations are truthful and are exactly its private disqualifications
+    (htrueA : ∀ x ∈ accsA, x.1 = b.id → target5 (pub5 a) a.id x = x.2.1 ∧ x.2.1 ∈ b.dq)
+    (htrueB : ∀ x ∈ accsB, x.1 = a.id → target5 (pub5 b) b.id x = x.2.1 ∧ x.2.1 ∈ a.dq)
+    (hprivA : ∀ k ∈ a.dq, k ∈ b.dq ∨ ∃ x ∈ accsB, x.1 = a.id ∧ x.2.1 = k)
+    (hprivB : ∀ k ∈ b.dq, k ∈ a.dq ∨ ∃ x ∈ accsA, x.1 = b.id ∧ x.2.1 = k)
+    -- accusations against a or b are judged false by the public verdict
+    (hhonA : ∀ x ∈ accsB, x.2.1 = a.id → target5 (pub5 b) b.id x = x.1)
+    (hhonB : ∀ x ∈ accsA, x.2.1 = b.id → target5 (pub5 a) a.id x = x.1) :
+    ∀ k, k ∈ (accsA.foldl resolve5Step a).dq ↔ k ∈ (accsB.foldl resolve5Step b).dq := by
+  have hn : a.n = b.n := congrArg Pub5.n hpub
+  -- one direction, stated symmetrically
+  have key : ∀ (a b : St) (accsA accsB : List (Nat × Nat × Nat)),
+      a.status = .ok → b.status = .ok → a.fixAbort = true → b.fixAbort = true →
+      pub5 a = pub5 b → (∀ k, k ∈ a.ia ↔ k ∈ b.ia) →
+      (∀ k ∈ a.dq, 1 ≤ k ∧ k ≤ a.n ∧ k ∉ a.ia) →
+      (∀ x ∈ accsA, x.1 ≠ b.id → x ∈ accsB) →
+      (∀ x ∈ accsA, x.1 ≠ a.id) →
+      (∀ x ∈ accsA, x.1 = b.id → target5 (pub5 a) a.id x = x.2.1 ∧ x.2.1 ∈ b.dq) →
+      (∀ x ∈ accsB, x.1 = a.id → target5 (pub5 b) b.id x = x.2.1 ∧ x.2.1 ∈ a.dq) →
+      (∀ k ∈ a.dq, k ∈ b.dq ∨ ∃ x ∈ accsB, x.1 = a.id ∧ x.2.1 = k) →
+      (∀ x ∈ accsB, x.2.1 = a.id → target5 (pub5 b) b.id x = x.1) →
+      (∀ x ∈ accsA, x.2.1 = b.id → target5 (pub5 a) a.id x = x.1) →
+      ∀ k, k ∈ (accsA.foldl resolve5Step a).dq → k ∈ (accsB.foldl resolve5Step b).dq := by
+    intro a b accsA accsB hoka hokb hfa hfb hpub hia hdqa h3ab hselfA htrueA htrueB hprivA hhonA hhonB k
+    have hn : a.n = b.n := congrArg Pub5.n hpub
+    rw [resolve5_dq_iff accsA a hoka hfa, resolve5_dq_iff accsB b hokb hfb]
+    have opB : ∀ k, 1 ≤ k → k ≤ a.n → k ∉ a.ia → k ∉ b.dq → isOperating b k = true := by
+      intro k h1 h2 h3 h4
+      have : k ∉ b.ia := fun h => h3 ((hia k).2 h)
+      simp [isOperating, ← hn, h1, h2, this, h4]
+    rintro (hk | ⟨hk, hop⟩)
+    · rcases hprivA k hk with h | ⟨x, hx, hx1, hx2⟩
+      · exact Or.inl h
+      · obtain ⟨r1, r2, r3⟩ := hdqa k hk
+        by_cases hkb : k ∈ b.dq
+        · exact Or.inl hkb
+        · refine Or.inr ⟨List.mem_map.2 ⟨x, hx, ?_⟩, opB k r1 r2 r3 hkb⟩
+          rw [(htrueB x hx hx1).1, hx2]
+    · obtain ⟨x, hx, hxt⟩ := List.mem_map.1 hk
+      have hrange : 1 ≤ k ∧ k ≤ a.n ∧ k ∉ a.ia := by
+        simp only [isOperating, Bool.and_eq_true, decide_eq_true_eq, Bool.not_eq_true',
+          List.contains_eq_mem, decide_eq_false_iff_not] at hop
+        exact ⟨hop.1.1.1, hop.1.1.2, hop.1.2⟩
+      by_cases hkb : k ∈ b.dq
+      · exact Or.inl hkb
+      · refine Or.inr ⟨?_, opB k hrange.1 hrange.2.1 hrange.2.2 hkb⟩
+        by_cases hxb : x.1 = b.id
+        · -- b's own (truthful) accusation: its target is on b's DQ list already
+          have := htrueA x hx hxb
+          rw [this.1] at hxt
+          exact absurd (hxt ▸ this.2) hkb
+        · have hxB : x ∈ accsB := h3ab x hx hxb
+          refine List.mem_map.2 ⟨x, hxB, ?_⟩
+          rw [← hxt]
+          by_cases hya : x.2.1 = a.id
+          · -- a is the accused: a sides against the accuser, and so does the public verdict
+            rw [hhonA x hxB hya]
+            unfold target5 verdict5 openAccusation
+            simp [hya]
+          · by_cases hyb : x.2.1 = b.id
+            · rw [hhonB x hx hyb]
+              unfold target5 verdict5 openAccusation
+              simp [hyb]
+            · unfold target5
+              rw [hpub, verdict5_public (pub5 b).ev (pub5 b).q (pub5 b).n _ x.1 x.2.1 x.2.2 b.id a.id
+                (fun h => hyb h.symm) (fun h => hya h.symm)]
+  intro k
+  exact ⟨key a b accsA accsB hoka hokb hfa hfb hpub hia hdqa h3ab hselfA htrueA htrueB hprivA hhonA hhonB k,
+    key b a accsB accsA hokb hoka hfb hfa hpub.symm (fun k => (hia k).symm) hdqb h3ba hselfB htrueB htrueA
+      hprivB hhonB hhonA k⟩
 
 end KeepVerif.C01
